@@ -267,10 +267,35 @@ def opC10Query : List String → Res
     | none => bad
   | _ => bad
 
+/-- tie G (panic-aware): `baseHandler.handleCommand` and `config.DeserializeOptions` as translated from the working tree, on
+    the same command: the translated decoder panics exactly when the model says so, and where options are decoded the
+    translated `DeserializeOptions` yields the model's line context and option map -/
+def c10translatedAgrees (cmd : Bytes) : Bool :=
+  let ext : Go.Ext :=
+    { parseFloat := fun _ => (0, some (b!"syntax")),
+      atoi := fun t => match atoi t with | some n => (n, none) | none => (0, some (b!"syntax")),
+      base64Decode := fun t => match env10.b64dec t with | some d => (d, none) | none => ([], some (b!"illegal base64 data")) }
+  let model := decodeCommand env10 cmd
+  let gen := Gen.Decode.baseHandler.handleCommand ext {} cmd
+  let panicSame := model.isPanic == (match gen with | .ok _ => false | _ => true)
+  let optsSame := match model with
+    | .ok d => match d.options with
+      | none => true
+      | some mo =>
+        let parts := splitOnByte COLON (d.args.headD [])
+        match Gen.Config.DeserializeOptions ext (parts.drop 1) with
+        | .ok (go, ltx, none) =>
+          ltx.BeforeContext == d.ltx.before && ltx.AfterContext == d.ltx.after && ltx.MaxCount == d.ltx.maxc
+            && sortBytes (go.entries.map fun e => e.1 ++ [0] ++ e.2) == sortBytes (mo.map fun e => e.1 ++ [0] ++ e.2)
+        | _ => false
+    | _ => true
+  panicSame && optsSame
+
 def opC10Decode : List String → Res
   | [h] => match unhex h with
     | some stream =>
       let rs := (serverCommands stream).map (decodeCommand env10)
+      if !(serverCommands stream).all c10translatedAgrees then { m := "TRANSLATED-DECODER-DIFFERS-FROM-MODEL", s := "no-panic" } else
       match rs.find? (·.isPanic) with
       | some (.panic p) => { m := "PANIC " ++ p, s := "no-panic" }
       | _ =>
